@@ -36,6 +36,7 @@ def timing(g="g", l="l", basis_g="ground-rydberg", basis_l="digital", eom=True, 
         ("add", C16, l, "min-delay"),
         ("delay", 16, g),
         ("delay", 50, l),
+        ("delay", 30, g),
         ("delay", 100, g, True),
         ("delay", 0, l, True),
         ("target", "q1", l),
